@@ -45,6 +45,8 @@ func (fe *FnExec) doCall(fr *frame, st *State, in ssa.Instruction, cc *ssa.CallC
 // value and arguments were evaluated at the defer statement).
 func (fe *FnExec) doCallWith(fr *frame, st *State, in ssa.Instruction, cc *ssa.CallCommon, rt types.Type, fnv Val, args []Val) Val {
 	fe.curInstr = in
+	fe.memVersion++
+	defer func() { fe.memVersion++ }()
 	if rt == nil {
 		if sig, ok := cc.Value.Type().Underlying().(*types.Signature); ok {
 			rt = resultType(sig)
@@ -470,7 +472,7 @@ func (fe *FnExec) applyContract(fr *frame, st *State, in ssa.Instruction, site s
 func (fe *FnExec) letFresh(con *Contract, l LetSpec, name string) Val {
 	// type: find the callee's function and the call instruction
 	if f := fe.eng.funcs[con.Key]; f != nil {
-		tmp := &frame{fn: f, ords: map[ssa.Instruction]string{}, callIdx: map[string]ssa.CallInstruction{}, pseudoSites: map[string]bool{}}
+		tmp := &frame{fn: f, ords: map[ssa.Instruction]string{}, callIdx: map[string]ssa.CallInstruction{}, pseudoSites: map[string]bool{}, pseudoVals: map[string]ssa.Value{}}
 		fe.assignOrdinals(tmp)
 		if ci, ok := tmp.callIdx[l.Call]; ok {
 			t := ci.(ssa.Value).Type()
